@@ -274,9 +274,14 @@ func (c *Check) ForEach(n uint64, fn func(w int, i uint64)) uint64 {
 		go func(w int) {
 			defer wg.Done()
 			cnt := 0
+			last := time.Now()
 			for i := uint64(w); i < n; i += uint64(W) {
-				if cnt&63 == 0 && c.Expired() {
+				// deadline test every 64 items or every second, whichever comes first
+				if (cnt&63 == 0 || time.Since(last) > time.Second) && c.Expired() {
 					return
+				}
+				if cnt&7 == 0 {
+					last = time.Now()
 				}
 				cnt++
 				fn(w, i)
